@@ -537,3 +537,173 @@ fn choose64(n: u64) -> u64 {
     let lo = choose(1 << 20) as u64;
     ((hi << 20) | lo) % n
 }
+
+// ---------------------------------------------------------------------------
+// C17 / C07 / C02: edge configurations of the RTU server
+//  * one handler object mapped to several unit ids (the map allows it): a broadcast write is applied once per
+//    configured unit id, i.e. that handler is invoked once for each of its ids, and the task stays alive;
+//  * a reply whose write fails: the session ends, the port is re-opened after the retry delay - and whatever
+//    comes next, in particular a broadcast, is treated like on a fresh port (a broadcast is never answered).
+pub fn run_server_edge(cfg: &ScenCfg, out: &mut RunOut) {
+    let sched = chance(1, 2);
+    let sel = chance(1, 2);
+    let chunk = chance(1, 2);
+    kernel::with(|w| {
+        w.cfg.sched_random = sched;
+        w.cfg.select_random = sel;
+        w.cfg.chunk_reads = chunk;
+    });
+    let (_, decode) = pick_decode(&cfg.decode);
+    serial::add_line(PATH, OpenOutcome::Ok, true);
+    let journal: Journal = Arc::new(Mutex::new(Vec::new()));
+    let ua = 1 + choose(80) as u8;
+    let ub = ua + 1 + choose(80) as u8;
+    let uc = ub + 1 + choose(80) as u8;
+    let shared_ids = chance(2, 3);
+    let third = chance(1, 2);
+    let mk = |u: u8| {
+        MemHandler {
+            unit: u,
+            mem: UnitMem::new(0xed6e_0000 + u as u64),
+            journal: journal.clone(),
+        }
+        .wrap()
+    };
+    let ha = mk(ua);
+    let hb = if shared_ids { ha.clone() } else { mk(ub) };
+    let mut map = ServerHandlerMap::new();
+    map.add(UnitId::new(ua), ha.clone());
+    map.add(UnitId::new(ub), hb.clone());
+    let mut configured = vec![ua, ub];
+    if third {
+        map.add(UnitId::new(uc), mk(uc));
+        configured.push(uc);
+    }
+    // (journal entries carry the unit the handler object was created for)
+    let tag = |u: u8| if shared_ids && u == ub { ua } else { u };
+    let retry_ns = [20 * MS, 100 * MS][choose(2) as usize];
+    let (handle, task) = create_rtu_server_task(PATH, SerialSettings::default(), doubling_retry_strategy(Duration::from_nanos(retry_ns), Duration::from_nanos(retry_ns)), map, decode);
+    let task = simtokio::task::spawn_named("rtu-server", task.run());
+    kernel::settle();
+    let mut jpos = 0usize;
+    let mut val: u16 = 0x1000 + choose(0x1000) as u16;
+    let steps = 2 + choose(6);
+    let mut write_fault_done = false;
+    for step in 0..steps {
+        val = val.wrapping_add(1);
+        let addr = choose(16) as u16;
+        let action = if cfg.faults && !write_fault_done && step > 0 && chance(1, 3) { 3 } else { weighted(&[4, 2, 2]) };
+        let ctx: String;
+        match action {
+            0 => {
+                // broadcast write (single register or multiple registers)
+                let pdu = if chance(1, 2) { vec![6, (addr >> 8) as u8, addr as u8, (val >> 8) as u8, val as u8] } else { vec![16, (addr >> 8) as u8, addr as u8, 0, 2, 4, (val >> 8) as u8, val as u8, 0, 7] };
+                let call = if pdu[0] == 6 { Call::WriteReg(addr, val) } else { Call::WriteRegs(addr, 2, vec![(addr, val), (addr + 1, 7)]) };
+                serial::line_write(PATH, &rtu_frame(0, &pdu));
+                kernel::advance(10 * MS);
+                ctx = format!("broadcast write fc={} addr={} value={:#06x} to units {:?}{}", pdu[0], addr, val, configured, if shared_ids { " (first two share one handler object)" } else { "" });
+                let got = serial::line_take(PATH);
+                if !got.is_empty() {
+                    let d = format!("{}: the server answered a broadcast with {}", ctx, hex(&got[..got.len().min(24)]));
+                    out.violate("C17", "rtu_edge/broadcast_answered", d.clone());
+                    out.violate("C01", "rtu_edge/broadcast_answered", d);
+                    break;
+                }
+                let mut j: Vec<(u8, Call)> = journal.lock().unwrap()[jpos..].to_vec();
+                jpos += j.len();
+                let mut exp: Vec<(u8, Call)> = configured.iter().map(|u| (tag(*u), call.clone())).collect();
+                j.sort_by_key(|e| e.0);
+                exp.sort_by_key(|e| e.0);
+                if j != exp {
+                    let d = format!("{}: handler calls {:?}, expected one per configured unit id {:?}", ctx, j, exp);
+                    out.violate("C17", "rtu_edge/broadcast_not_applied_once_per_unit", d.clone());
+                    out.violate("C02", "rtu_edge/broadcast_not_applied_once_per_unit", d);
+                    break;
+                }
+                out.ops_checked += 1;
+                out.probe(if shared_ids { "rtu_broadcast_shared_handler" } else { "rtu_broadcast_distinct_handlers" });
+            }
+            1 | 3 => {
+                // unicast write to a configured unit; with action 3 the reply write fails
+                let u = configured[choose(configured.len() as u32) as usize];
+                let pdu = vec![6, (addr >> 8) as u8, addr as u8, (val >> 8) as u8, val as u8];
+                let f = rtu_frame(u, &pdu);
+                if action == 3 {
+                    let kind = [std::io::ErrorKind::BrokenPipe, std::io::ErrorKind::TimedOut, std::io::ErrorKind::Other][choose(3) as usize];
+                    serial::inject_write_fault(PATH, choose(f.len() as u32) as u64, kind);
+                    write_fault_done = true;
+                }
+                serial::line_write(PATH, &f);
+                kernel::advance(10 * MS);
+                ctx = format!("write register {}={:#06x} to unit {}{}", addr, val, u, if action == 3 { " (reply write fails)" } else { "" });
+                let got = serial::line_take(PATH);
+                let j: Vec<(u8, Call)> = journal.lock().unwrap()[jpos..].to_vec();
+                jpos += j.len();
+                if j != vec![(tag(u), Call::WriteReg(addr, val))] {
+                    out.violate("C02", "rtu_edge/unicast_write_journal", format!("{}: handler calls {:?}", ctx, j));
+                    break;
+                }
+                if action == 3 {
+                    // whatever part of the reply left the port is a prefix of the echo
+                    if !f.starts_with(&got) || got.len() == f.len() {
+                        out.violate("C01", "rtu_edge/reply_after_write_error", format!("{}: line carries {}", ctx, hex(&got[..got.len().min(24)])));
+                        break;
+                    }
+                    // the port is closed and re-opened after the retry delay
+                    kernel::advance(retry_ns + MS);
+                    let opens = serial::opens(PATH).len();
+                    if opens != 2 || !serial::is_open(PATH) {
+                        let d = format!("{}: {} open attempts, port open = {} one retry delay after the failed write", ctx, opens, serial::is_open(PATH));
+                        out.violate("C07", "rtu_edge/port_not_reopened", d.clone());
+                        out.violate("C14", "rtu_edge/port_not_reopened", d);
+                        break;
+                    }
+                    let stray = serial::line_take(PATH);
+                    if !stray.is_empty() {
+                        out.violate("C01", "rtu_edge/bytes_after_reopen", format!("{}: after the re-open the server sent {} unasked", ctx, hex(&stray[..stray.len().min(24)])));
+                        break;
+                    }
+                    out.probe("rtu_reply_write_error_then_reopen");
+                } else if got != f {
+                    let d = format!("{}: reply {}, expected the echo {}", ctx, hex(&got[..got.len().min(24)]), hex(&f));
+                    out.violate("C01", "rtu_edge/unicast_write_reply", d.clone());
+                    out.violate("C17", "rtu_edge/unicast_write_reply", d);
+                    break;
+                }
+                out.ops_checked += 1;
+            }
+            _ => {
+                // read addressed to unit 0: ignored; read addressed to a unit that is not configured: silence
+                let dest = if chance(1, 2) { 0 } else { uc.wrapping_add(1 + choose(10) as u8) };
+                let pdu = vec![3, (addr >> 8) as u8, addr as u8, 0, 1];
+                serial::line_write(PATH, &rtu_frame(dest, &pdu));
+                kernel::advance(10 * MS);
+                ctx = format!("read holding {} addressed to {}", addr, dest);
+                let got = serial::line_take(PATH);
+                let j: Vec<(u8, Call)> = journal.lock().unwrap()[jpos..].to_vec();
+                jpos += j.len();
+                if !got.is_empty() || !j.is_empty() {
+                    let d = format!("{}: line carries {}, handler calls {:?} (expected silence and none)", ctx, hex(&got[..got.len().min(24)]), j);
+                    out.violate("C17", "rtu_edge/not_silent", d.clone());
+                    out.violate("C02", "rtu_edge/not_silent", d);
+                    break;
+                }
+                out.ops_checked += 1;
+            }
+        }
+        let _ = ctx;
+    }
+    // the task is alive and honours shutdown
+    if out.violations.is_empty() {
+        drop(handle);
+        kernel::advance(retry_ns + 10 * MS);
+        if !task.is_finished() {
+            let d = "the RTU server task did not end after its handle was dropped".to_string();
+            out.violate("C07", "rtu_edge/task_ignores_shutdown", d.clone());
+            out.violate("C15", "rtu_edge/task_ignores_shutdown", d);
+        }
+    }
+    out.nontrivial = if out.ops_checked > 0 { Some(((ua as u64) << 40) ^ ((ub as u64) << 32) ^ ((val as u64) << 8) ^ steps as u64 ^ ((shared_ids as u64) << 60)) } else { None };
+    out.sample = Some(json!({"scenario": "rtu server edge configurations", "units": configured, "shared_handler": shared_ids, "steps": steps}));
+    let _ = (ha, hb);
+}
